@@ -173,6 +173,15 @@ def search(ctx):
         if digest(ra.N, ra.t) != digest(rb.N, rb.t) or digest(a._results[i].N, a._results[i].t) != digest(b._results[i].N, b._results[i].t):
             V.append({"key": {"clause": "energy_scan_parallel"}, "what": f"energy_scan parallel and sequential results differ at {e} eV", "input": {"op": "escan", "e": e}})
             break
+    # … and everything the scan result answers from them: queries between the solver's steps, the charge-state table (results that came
+    # back from a worker process must carry the same interpolants as results produced here)
+    tq = [0.0, 0.02, 1.234e-3, 7.7e-3, 1.9e-2]
+    qa = [np.ascontiguousarray(a.abundance_at_time(t_)[1]).tobytes() for t_ in tq] + [np.ascontiguousarray(a.abundance_of_cs(8)[1]).tobytes()]
+    qb = [np.ascontiguousarray(b.abundance_at_time(t_)[1]).tobytes() for t_ in tq] + [np.ascontiguousarray(b.abundance_of_cs(8)[1]).tobytes()]
+    if qa != qb:
+        k_ = [x != y for x, y in zip(qa, qb)].index(True)
+        V.append({"key": {"clause": "energy_scan_parallel", "variant": "queries"}, "input": {"op": "escan_queries"},
+                  "what": "energy_scan parallel and sequential give different " + (f"abundance_at_time({tq[k_]})" if k_ < len(tq) else "abundance_of_cs(8)") + " tables"})
     ctx.evaluations += 2
     if ctx.thorough:
         # fresh processes (warm cache, then a cold cache)
